@@ -275,7 +275,7 @@ impl Disconnect {
             let properties_len_len = len_len(properties_len);
             length += properties_len_len + properties_len;
         } else {
-            length += 1;
+            length += 2; // Disconnect Reason Code + empty property length
         }
 
         length
@@ -283,7 +283,9 @@ impl Disconnect {
 
     pub fn size(&self) -> usize {
         let len = self.len();
-        if len == 2 {
+        if self.reason_code == DisconnectReasonCode::NormalDisconnection
+            && self.properties.is_none()
+        {
             return len;
         }
 
@@ -325,7 +327,9 @@ impl Disconnect {
 
         let length = self.len();
 
-        if length == 2 {
+        if self.reason_code == DisconnectReasonCode::NormalDisconnection
+            && self.properties.is_none()
+        {
             buffer.put_u8(0x00);
             return Ok(length);
         }
